@@ -1,12 +1,43 @@
 //! The runtime the harness itself runs on: the same vsched primitives the crate is linked against.
 
 pub use vsched::sync::{Condvar, Mutex};
-pub use vsched::thread::{spawn, yield_now, JoinHandle};
+pub use vsched::thread::{spawn, yield_now};
+
+use futures::task::ArcWake;
+use std::future::Future;
+use std::pin::Pin;
+use std::sync::Arc;
+use std::task::{Context, Poll, Waker};
 
 pub fn emit(s: &str) { vsched::emit(s) }
 
+/// The waker handed to a blocked-on future: forwards to the runtime's waker and records the wake.
+struct TaskWaker { inner: Waker, agent: usize }
+
+impl ArcWake for TaskWaker {
+    fn wake_by_ref(arc_self: &Arc<Self>) {
+        vsched::emit(&format!("taskwake A{}", arc_self.agent));
+        arc_self.inner.wake_by_ref();
+    }
+}
+
+struct Observed<F> { inner: Pin<Box<F>>, agent: usize }
+
+impl<F: Future> Future for Observed<F> {
+    type Output = F::Output;
+    fn poll(mut self: Pin<&mut Self>, cx: &mut Context<'_>) -> Poll<F::Output> {
+        let waker = futures::task::waker(Arc::new(TaskWaker { inner: cx.waker().clone(), agent: self.agent }));
+        let mut cx2 = Context::from_waker(&waker);
+        self.inner.as_mut().poll(&mut cx2)
+    }
+}
+
 #[cfg(feature = "shuttle-backend")]
-pub fn block_on<F: std::future::Future>(f: F) -> F::Output { shuttle::future::block_on(f) }
+pub fn block_on<F: Future>(f: F) -> F::Output {
+    shuttle::future::block_on(Observed { inner: Box::pin(f), agent: vsched::agent_id() })
+}
 
 #[cfg(not(feature = "shuttle-backend"))]
-pub fn block_on<F: std::future::Future>(f: F) -> F::Output { futures::executor::block_on(f) }
+pub fn block_on<F: Future>(f: F) -> F::Output {
+    futures::executor::block_on(Observed { inner: Box::pin(f), agent: vsched::agent_id() })
+}
